@@ -252,6 +252,13 @@ func (c *httpClient) newRequest(ctx context.Context, body []byte) (request, erro
 
 		req.bodyReader = bodyReader(b.Bytes())
 	}
+	if req.bodyReader == nil {
+		// Undefined compression value: send the payload uncompressed instead
+		// of leaving the request without a body reader (nil dereference in
+		// reset at the first export).
+		r.ContentLength = (int64)(len(body))
+		req.bodyReader = bodyReader(body)
+	}
 
 	return req, nil
 }
